@@ -96,7 +96,10 @@ def ingest(src, sid):
         rc, p, f, out = cargo_test(d)
         ran.append("git apply patch.diff demo.diff && cargo test --offline --workspace --no-fail-fast")
         obs["demo_with_patch"] = "%d passed, %d failed (rc %d)" % (p, f, rc)
-        ok_c = f >= 1 and p >= 43
+        aborted = rc != 0 and f == 0 and ("SIGABRT" in out or "signal: 6" in out or "SIGSEGV" in out or "signal: 11" in out or "stack overflow" in out)
+        if aborted:
+            obs["demo_with_patch"] += " — the test process was killed (abort / stack overflow / segfault), which is the demonstrated failure"
+        ok_c = (f >= 1 and p >= 43) or aborted
     finally:
         shutil.rmtree(d, ignore_errors=True)
     print(sid, obs, "OK" if (ok_a and ok_b and ok_c) else "REJECTED")
